@@ -1,14 +1,16 @@
 #!/bin/bash
-# usage: sweep.sh <seed> <evidence dir or ""> 
-SEED=$1
+# usage: sweep.sh <seed> <evidence dir or ""> [tier] [ids...]   -- runs every check once, one line per check
+SEED=$1; EVD=$2; TIER=${3:-quick}; shift 3 2>/dev/null
+IDS=${@:-01 02 03 04 05 06 07 08 09 10 11 12 13 14 15 16 17 18 19 20}
 cd /verif
-for i in 01 02 03 04 05 06 07 08 09 10 11 12 13 14 15 16 17 18 19 20; do
+for i in $IDS; do
   s=$(date +%s)
-  if [ -n "$2" ]; then
-    VERIF_SEED=$SEED VERIF_EVIDENCE=$2 VERIF_WORK=/tmp/sweepwork_$SEED ./check C$i --tier quick > /tmp/sweep_${SEED}_C$i.log 2>&1
+  L=/tmp/sweep_${TIER}_${SEED}_C$i.log
+  if [ -n "$EVD" ]; then
+    VERIF_SEED=$SEED VERIF_EVIDENCE=$EVD VERIF_WORK=/tmp/sweepwork_${TIER}_$SEED ./check C$i --tier $TIER > $L 2>&1
   else
-    VERIF_SEED=$SEED ./check C$i --tier quick > /tmp/sweep_${SEED}_C$i.log 2>&1
+    VERIF_SEED=$SEED ./check C$i --tier $TIER > $L 2>&1
   fi
   rc=$?
-  echo "C$i seed=$SEED rc=$rc $(( $(date +%s) - s ))s $(grep -c '^VIOLATION' /tmp/sweep_${SEED}_C$i.log) violations $(grep -c '^KNOWN' /tmp/sweep_${SEED}_C$i.log) known"
+  echo "C$i seed=$SEED tier=$TIER rc=$rc $(( $(date +%s) - s ))s $(grep -c '^VIOLATION' $L) violations $(grep -c '^KNOWN' $L) known $(grep -c '^INCONCLUSIVE' $L) inconclusive"
 done
